@@ -1,6 +1,6 @@
 PROPERTY = "C13"
 LEVEL = "proof"
-LEAN_MODULES = ["CifModel.Props.C13", "CifModel.Props.C13Doc"]
+LEAN_MODULES = ["CifModel.Props.C13", "CifModel.Props.C13Doc", "CifModel.Props.ReviewC13"]
 REQUIRED = ["CifModel.C13_text_pure", "CifModel.C13_no_triple", "CifModel.C13_refusal_codes", "CifModel.C13_never_silently_alters",
             "CifModel.C13_value_roundtrip", "CifModel.C13_run", "CifModel.C13_refusal_codes_doc", "CifModel.C13_pure",
             "CifModel.C13_roundtrip", "CifModel.C13_roundtrip_sample"]
@@ -24,8 +24,8 @@ PARTIAL = [
     "C13_pure and C13_refusal_codes_doc are proved for whole documents (every walk order) under containersV1 (loops hold packets, names "
     "printable, numbers non-empty CIF 1.1 text); the line bound is C02_line_bound (version 1) under containersL",
     "C13_roundtrip (whole documents, CIF 1.1 writer -> CIF 1.1 parse with line unfolding and prefix removal on, every callback policy) is "
-    "PROVED under the hypotheses of C02_roundtrip_doc read for the CIF 1.1 dialect (cifR .cif1, blocksN, containersL), one level of save "
-    "frames; the value level is also proved against the CIF 1.1 lexer model of group gD (C13_value_roundtrip)",
+    "PROVED under the hypotheses of C02_roundtrip_doc read for the CIF 1.1 dialect (cifR .cif1, blocksN, containersL), save frames nested to any "
+    "depth (frameN); the value level is also proved against the CIF 1.1 lexer model of group gD (C13_value_roundtrip)",
 ]
 LEVEL_TEXT = ("Proof (partial): in CIF 1.1 mode write_char fails only with CIF_DISALLOWED_CHAR (witness: a unit outside cif11_chars) or "
               "CIF_DISALLOWED_VALUE (witness: the text needs a text field and contains <LF>;), never triple-quotes, and a text field it writes "
